@@ -75,7 +75,7 @@ func c14OutOfScope(f *ssa.Function) bool {
 }
 
 func C14(ctx *core.Ctx, r *core.Report) {
-	r.Explanation = "Crash classes reachable while loading a module (LOAD entry set) or walking a compiled module through meta's exported accessors (WALK): explicit panics (K1), unchecked type assertions not discharged by guard, static type, sealed-interface closed world or dynamic type set (K2), constant/len-relative indexing without a length test (K4); plus the module-xor-error shape of the load entry points (K7), fixed-capacity lexer buffers (K3) and a frozen table of recursion cycles with their termination argument (K5). Not decided: nil dereferences outside these classes, stack depth of structural recursion on deeply nested input, termination of loops other than the recursion cycles."
+	r.Explanation = "Crash classes reachable while loading a module (LOAD entry set) or walking a compiled module through meta's exported accessors (WALK): explicit panics (K1), unchecked type assertions not discharged by guard, static type, sealed-interface closed world or dynamic type set (K2), constant/len-relative indexing without a length test (K4); plus the module-xor-error shape of the load entry points (K7), fixed-capacity lexer buffers (K3) and a frozen table of recursion cycles with their termination argument (K5). Also: parallel indexing (K4b), every cycle of the YANG lexer's loops moves the input position forward (next(), positive constant, successful accept; backup() cancels), and grammar actions stop the parse after a failed Builder call whose result they push. Not decided: nil dereferences outside these classes, stack depth of structural recursion on deeply nested input, termination of loops other than the recursion cycles."
 	roots := append(loadRoots(ctx, r), walkRoots(ctx, r)...)
 	e := newCrashEngine(ctx, r, roots, c14OutOfScope)
 	sites := e.sites("K1 K2 K4")
